@@ -245,7 +245,7 @@ func init() {
 		nil,
 		func(c *Ctx, tier string) []*Result {
 			return []*Result{c.RuleEscMatch(), c.RuleScanBound(), c.RuleRxGroups(), c.RuleIdxParam(), keyHas(c.RuleValidate(), 1, "odd-length"), c.RulePrintfConst(), c.RuleLastIndex(), c.RuleDefFragment(), c.RuleRecBound(),
-				inPkg(c.errHandleOnly(), 10, "regex/parser", "regex/operators", "regex/processors"), inPkg(c.RuleErrLog(), 5, "regex/parser", "regex/operators", "regex/processors"), c.RuleNoRecover(), c.RuleDeferInLoop(), c.RuleStrIndex(), c.RuleRangeIndex(), c.RuleLoopProgress(), c.RuleEscPos()}
+				inPkg(c.errHandleOnly(), 10, "regex/parser", "regex/operators", "regex/processors"), inPkg(c.RuleErrLog(), 5, "regex/parser", "regex/operators", "regex/processors"), c.RuleNoRecover(), c.RuleDeferInLoop(), c.RuleStrIndex(), c.RuleRangeIndex(), c.RuleLoopProgress(), c.RuleCtorNonNil(), c.RuleEscPos()}
 		})
 
 	prop("C20", "other",
